@@ -4,8 +4,8 @@
 
   Clauses of the property and where they are stated:
     * content / no explicit defaults / shape of `fromUncompressed`  — §1
-    * `uncompress (fromUncompressed n) (dims n) = n`                — §2 (PARTIAL: the code
-      raises on all-default nests; the failing class is proved to fail)
+    * `uncompress (fromUncompressed n) (dims n) = n`                — §2 (full, fiber and
+      tensor route, all-default nests included)
     * dictionary and YAML round trips                                — §3 (YAML text layer abstracted)
     * `fromRandom`                                                   — §4
 -/
@@ -109,87 +109,14 @@ end FromU
 section Unc
 variable {ν : Type} [DecidableEq ν]
 
-/-- Round trip, PARTIAL: for every rectangular nest with positive dimensions that has at
-    least one non-default entry, uncompressing the tree built from it to the nest's
-    dimensions returns the nest.  (Gap: the property also claims this for all-default
-    nests; there the code raises — `uncompress_fromUncompressed_allDefault_fails`.) -/
-theorem uncompress_fromUncompressed_partial (dflt : ν) : ∀ (d : Nat) (dims : List Nat) (n : Nest ν (d + 1)),
-    rectB (d + 1) dims n = true → (∀ k ∈ dims, 0 < k) → allDefault dflt (d + 1) n = false →
-    uncompress dflt d dims (fromUncompressed dflt d n) = some n := by
-  intro d
-  induction d with
-  | zero =>
-    intro dims n hr hpos hnd
-    cases dims with
-    | nil => rw [rectB_succ_nil] at hr; cases hr
-    | cons m ns =>
-      obtain ⟨hlen, _⟩ := rect_parts hr
-      cases h : makeFiber dflt 0 n with
-      | none => rw [(makeFiber_eq_none_iff dflt 0 n).1 h] at hnd; cases hnd
-      | some t =>
-        have g := makeFiber_good dflt 0 n t h
-        rw [fromUncompressed_of_some h, uncompress_zero, present_of_noEmpty dflt 0 t g.noEmpty, g.chain,
-          if_pos rfl, fillEmpty_zero, rangeFib_eq, ← hlen, (makeFiber_some_zero h).1]
-        refine (uncRows_lockstep (leafKeep dflt) (fun (v : ν) => some v) (some dflt) (asNestList n) 0).trans ?_
-        apply mapMOpt_eq_some_self
-        intro x _
-        cases hk : leafKeep dflt x with
-        | none => exact congrArg some (leafKeep_eq_none.1 hk).symm
-        | some w => exact congrArg some (leafKeep_eq_some.1 hk).2.symm
-  | succ d ih =>
-    intro dims n hr hpos hnd
-    cases dims with
-    | nil => rw [rectB_succ_nil] at hr; cases hr
-    | cons m ns =>
-      obtain ⟨hlen, hall⟩ := rect_parts hr
-      have hpos' : ∀ k ∈ ns, 0 < k := fun k hk => hpos k (List.mem_cons_of_mem _ hk)
-      cases h : makeFiber dflt (d + 1) n with
-      | none => rw [(makeFiber_eq_none_iff dflt (d + 1) n).1 h] at hnd; cases hnd
-      | some t =>
-        have g := makeFiber_good dflt (d + 1) n t h
-        rw [fromUncompressed_of_some h, uncompress_succ, present_of_noEmpty dflt (d + 1) t g.noEmpty, g.chain,
-          if_pos rfl, rangeFib_eq, ← hlen, (makeFiber_some_succ h).1]
-        refine (uncRows_lockstep (makeFiber dflt d) (fun t => uncompress dflt d ns t)
-          (fillEmpty (some dflt) (d + 1) ns) (asNestList n) 0).trans ?_
-        apply mapMOpt_eq_some_self
-        intro x hx
-        cases hk : makeFiber dflt d x with
-        | none =>
-          exact fillEmpty_of_rect dflt (d + 1) ns x (hall x hx) hpos' ((makeFiber_eq_none_iff dflt d x).1 hk)
-        | some w =>
-          have hx' : allDefault dflt (d + 1) x = false := by
-            cases ha : allDefault dflt (d + 1) x with
-            | false => rfl
-            | true => rw [(makeFiber_eq_none_iff dflt d x).2 ha] at hk; cases hk
-          have := ih ns x (hall x hx) hpos' hx'
-          rw [fromUncompressed_of_some hk] at this
-          exact this
-
-/-- The excluded class really fails (this is the negation of the full statement, for every
-    all-default nest with positive dimensions): `_fillempty` reads `payloads[0]` of the empty
-    root, the model's `none` = Python's `IndexError`. -/
-theorem uncompress_fromUncompressed_allDefault_fails (dflt : ν) (d : Nat) (dims : List Nat) (n : Nest ν (d + 1))
-    (hr : rectB (d + 1) dims n = true) (hpos : ∀ k ∈ dims, 0 < k) (hall : allDefault dflt (d + 1) n = true) :
-    uncompress dflt d dims (fromUncompressed dflt d n) = none := by
-  have hnone := (makeFiber_eq_none_iff dflt d n).2 hall
-  rw [fromUncompressed_of_none hnone]
-  cases dims with
-  | nil => rw [rectB_succ_nil] at hr; cases hr
-  | cons m ns =>
-    obtain ⟨hlen, _⟩ := rect_parts hr
-    have hm : 0 < m := hpos m (List.mem_cons_self ..)
-    have hpos' : ∀ k ∈ ns, 0 < k := fun k hk => hpos k (List.mem_cons_of_mem _ hk)
-    obtain ⟨m', rfl⟩ : ∃ m', m = m' + 1 := ⟨m - 1, by omega⟩
-    cases d with
-    | zero =>
-      show uncRows (fun (v : ν) => some v) (fillEmpty none 0 ns) (orMerge [] (rangeFib (m' + 1))) = none
-      rw [rangeFib_eq, rangeFibFrom_succ, fillEmpty_zero]
-      simp [orMerge, uncRows]
-    | succ d =>
-      show uncRows (fun (t : Tree Nat ν (d + 1)) => uncompress dflt d ns t) (fillEmpty none (d + 1) ns)
-        (orMerge [] (rangeFib (m' + 1))) = none
-      rw [rangeFib_eq, rangeFibFrom_succ, fillEmpty_none_of_pos (d + 1) ns hpos']
-      simp [orMerge, uncRows]
+/-- Round trip: for EVERY rectangular nest with positive dimensions — all-default ones
+    included — uncompressing the tree built from it to the nest's dimensions returns the nest,
+    both for `Fiber.fromUncompressed` (`owned = false`) and through
+    `Tensor.fromUncompressed(...).getRoot()` (`owned = true`).  (Fixes cc544e6, ecc4474.) -/
+theorem uncompress_fromUncompressed (owned : Bool) (dflt : ν) (d : Nat) (dims : List Nat) (n : Nest ν (d + 1))
+    (hr : rectB (d + 1) dims n = true) (hpos : ∀ k ∈ dims, 0 < k) :
+    uncompress owned dflt d dims (fromUncompressed dflt d n) = some n :=
+  cv_uncompress_roundtrip owned dflt d dims n hr hpos
 
 end Unc
 
@@ -216,27 +143,28 @@ theorem dict_roundtrip_equal_partial (dflt : ν) (d : Nat) (t : Tree κ ν d) :
 
 /-- Tensor dump → (abstracted) YAML text → `Tensor.fromYAMLfile`, PARTIAL.  If no coordinate
     and no shape entry is a tuple, the reloaded tensor has the same rank ids, the same shape,
-    the same stored tree, and compares `==` under a common default; its name is the original
-    one for a rank-0 tensor and `""` otherwise.
+    the same NAME (every rank, fix a24e1eb), the same stored tree, and compares `==` under a
+    common default.
     Gaps w.r.t. the property: (1) tuple coordinates — `tensor_yaml_tuple_fails`;
-    (2) the name of a tensor of rank ≥ 1 is dropped — visible in the statement;
     (3) the default is not carried — `loadedLeafDefault`, so `==` is only claimed when the
     original's default is the one the loader installs. -/
 theorem tensor_yaml_roundtrip_partial (plain : κ → Bool) (dflt : ν) {d : Nat} (t : TRep κ ν d)
     (hc : allCoords plain d t.root = true) (hs : t.shape.all plain = true) :
     ∃ r, tensorYamlRoundtrip plain t = some r ∧ r.rankIds = t.rankIds ∧ r.shape = t.shape ∧
-         r.root = t.root ∧ r.name = (if d = 0 then t.name else "") ∧
+         r.root = t.root ∧ r.name = t.name ∧
          tensorEqB dflt dflt r t = true ∧ tensorEqB dflt dflt t r = true := by
-  refine ⟨{ rankIds := t.rankIds, shape := t.shape, name := (if d = 0 then t.name else ""), root := t.root },
+  refine ⟨{ rankIds := t.rankIds, shape := t.shape, name := t.name, root := t.root },
     ?_, rfl, rfl, rfl, rfl, ?_, ?_⟩
   · unfold tensorYamlRoundtrip yamlText tensorLoad tensorDump
     simp only [hc, hs, Bool.and_self, if_true, dict2fiber_fiber2dict]
   · simp [tensorEqB, eqB_refl]
   · simp [tensorEqB, eqB_refl]
 
-/-- rank-0 tensors and unnamed tensors round-trip with their name -/
+/-- the name clause, unconditionally: whatever is loaded back carries the original's name,
+    rank ids and shape (any rank, any name) -/
 theorem tensor_yaml_name_kept (plain : κ → Bool) {d : Nat} (t : TRep κ ν d) (r : TRep κ ν d)
-    (h : tensorYamlRoundtrip plain t = some r) (hn : d = 0 ∨ t.name = "") : r.name = t.name := by
+    (h : tensorYamlRoundtrip plain t = some r) :
+    r.name = t.name ∧ r.rankIds = t.rankIds ∧ r.shape = t.shape := by
   unfold tensorYamlRoundtrip yamlText tensorLoad tensorDump at h
   split at h
   · rename_i x hx
@@ -244,23 +172,7 @@ theorem tensor_yaml_name_kept (plain : κ → Bool) {d : Nat} (t : TRep κ ν d)
     · cases hx
       simp only [dict2fiber_fiber2dict] at h
       cases h
-      rcases hn with hd | hn
-      · simp [hd]
-      · by_cases hd : d = 0 <;> simp [hd, hn]
-    · cases hx
-  · cases h
-
-/-- gap (2) is real: for rank ≥ 1 the reloaded name is always `""` -/
-theorem tensor_yaml_name_dropped (plain : κ → Bool) {d : Nat} (t r : TRep κ ν (d + 1))
-    (h : tensorYamlRoundtrip plain t = some r) : r.name = "" := by
-  unfold tensorYamlRoundtrip yamlText tensorLoad tensorDump at h
-  split at h
-  · rename_i x hx
-    split at hx
-    · cases hx
-      simp only [dict2fiber_fiber2dict] at h
-      cases h
-      rfl
+      exact ⟨rfl, rfl, rfl⟩
     · cases hx
   · cases h
 
@@ -549,12 +461,14 @@ example : fiberShape (0 : Int) 1 exNest = [2, 2] :=
 example : fiberShape (0 : Int) 1 exZero = [2] :=
   fromUncompressed_fiber_shape_allDefault 0 0 exZero (by decide)
 -- §2
-example : uncompress (0 : Int) 1 [2, 2] (fromUncompressed 0 1 exNest) = some exNest :=
-  uncompress_fromUncompressed_partial 0 1 [2, 2] exNest (by decide) (by decide) (by decide)
-example : uncompress (7 : Int) 0 [3] (fromUncompressed 7 0 exLeaf) = some exLeaf :=
-  uncompress_fromUncompressed_partial 7 0 [3] exLeaf (by decide) (by decide) (by decide)
-example : uncompress (0 : Int) 1 [2, 2] (fromUncompressed 0 1 exZero) = none :=
-  uncompress_fromUncompressed_allDefault_fails 0 1 [2, 2] exZero (by decide) (by decide) (by decide)
+example : uncompress false (0 : Int) 1 [2, 2] (fromUncompressed 0 1 exNest) = some exNest :=
+  uncompress_fromUncompressed false 0 1 [2, 2] exNest (by decide) (by decide)
+example : uncompress false (0 : Int) 1 [2, 2] (fromUncompressed 0 1 exZero) = some exZero :=
+  uncompress_fromUncompressed false 0 1 [2, 2] exZero (by decide) (by decide)
+example : uncompress true (0 : Int) 1 [2, 2] (fromUncompressed 0 1 exZero) = some exZero :=
+  uncompress_fromUncompressed true 0 1 [2, 2] exZero (by decide) (by decide)
+example : uncompress true (7 : Int) 0 [3] (fromUncompressed 7 0 exLeaf) = some exLeaf :=
+  uncompress_fromUncompressed true 7 0 [3] exLeaf (by decide) (by decide)
 
 -- §3: a rank-2 tensor with an explicit default and an empty sub-fiber, plain coordinates
 def cv_exTree : Tree YCoord Int 2 :=
@@ -563,9 +477,9 @@ def cv_exTree : Tree YCoord Int 2 :=
 def exRep : TRep YCoord Int 2 :=
   { rankIds := ["A", "B"], shape := [YCoord.int 4, YCoord.int 3], name := "T", root := cv_exTree }
 example : allCoords YCoord.plain 2 exRep.root = true ∧ exRep.shape.all YCoord.plain = true := ⟨by decide, by decide⟩
-example : ∃ r, tensorYamlRoundtrip YCoord.plain exRep = some r ∧ r.root = cv_exTree ∧ r.name = "" := by
+example : ∃ r, tensorYamlRoundtrip YCoord.plain exRep = some r ∧ r.root = cv_exTree ∧ r.name = "T" := by
   obtain ⟨r, h, _, _, hroot, hname, _⟩ := tensor_yaml_roundtrip_partial YCoord.plain (0 : Int) exRep (by decide) (by decide)
-  exact ⟨r, h, hroot, by simpa using hname⟩
+  exact ⟨r, h, hroot, hname⟩
 /-- a flattened tensor: tuple coordinates -/
 def exTuple : TRep YCoord Int 1 :=
   { rankIds := ["[\"A\", \"B\"]"], shape := [YCoord.tup [2, 2]], name := "",
